@@ -84,6 +84,21 @@ CHECKS = {
  "C33": ("Grammars with hostile non-terminal names, member names and terminal texts: generated sources parse with syn; terminal / non-terminal / type / member / variant / method names are valid non-keyword identifiers and pairwise distinct where required.",
          "Semantic clashes with prelude items (a type named Box) are left to the compile check C22. Five naming defects are recorded findings with exact predicates.",
          "property-based testing (proptest): invariant over generated source parsed with syn"),
+ "C27": ("Valid grammar texts with comments inserted at token boundaries x formatter options: formatted text describes the same grammar (C25's field-by-field comparison), keeps every comment in order, and is a fixed point of the formatter.",
+         "Talks to the hooked parol-ls binary (cfg parol_verif driver, JSON lines). Comment placement inside syntactic constructs and two more shapes are recorded findings; the restricted placement mode is checked strictly.",
+         "property-based testing (proptest): round-trip + idempotence + invariant (comment sequence)"),
+ "C28": ("Valid grammar texts x every occurrence of a non-terminal or scanner-state identifier x fresh names: prepareRename accepts (refuses start symbol / INITIAL), the rename edits applied to the text equal the text with exactly that identifier's tokens replaced.",
+         "Name spaces are kept disjoint by the generator so that token-wise replacement is the exact expected result; positions are BMP-only (character = UTF-16 unit).",
+         "property-based testing (proptest): differential against a textual renaming model"),
+ "C29": ("Histories of open/change notifications over a pool of texts plus a completion order of the gated background analyses: the last published diagnostics carry the final version and equal those of a fresh server on the final text.",
+         "The harness owns the schedule through the cfg-guarded gate (an analysis blocks on its first access to the grammar); un-gated OS scheduling is not explored.",
+         "property-based testing (proptest): schedule-controlled history check against a fresh-server oracle"),
+ "C30": ("Documents (valid, mutated, random Unicode, CRLF, multi-byte) x positions in, at the end of and beyond every line x hover, definition, symbols, prepare-rename, rename, formatting, code action: no panic, process alive, pos_to_offset inside the text on a character boundary.",
+         "Panics are observed through the driver's catch_unwind; aborts through the child process ending.",
+         "property-based testing (proptest) with mutation: crash oracle + range invariant"),
+ "C34": ("Valid, mutated and random texts over the PAR vocabulary: parol's grammar parser and the language server's parser agree on 'syntax error or not'; runs stopped by a semantic error are undetermined and only counted.",
+         "Only the syntax verdict is compared (parser / lexer error vs none).",
+         "property-based testing (proptest) with grammar-aware mutation: differential between two parsers"),
 }
 
 def main():
@@ -91,7 +106,7 @@ def main():
     hook_commits = [l.split()[0] for l in hooks if "verif hooks" in l]
     m = {
       "version": 1,
-      "setup_cmd": "cd /verif/harness && CARGO_NET_OFFLINE=true cargo build 2>&1 | tail -3",
+      "setup_cmd": "cd /verif/harness && CARGO_NET_OFFLINE=true cargo build 2>&1 | tail -3 && cd /repo && CARGO_NET_OFFLINE=true RUSTFLAGS='--cfg parol_verif' cargo build --offline -p parol-ls --target-dir /verif/target-ls 2>&1 | tail -3",
       "hooks": {
         "guard": "--cfg parol_verif",
         "enable": "rustflags = [\"--cfg\", \"parol_verif\"] in /verif/harness/.cargo/config.toml (harness builds parol and parol_runtime from /repo as path dependencies with the flag); RUSTFLAGS='--cfg parol_verif' when building parol-ls",
